@@ -3,9 +3,11 @@ package client
 import (
 	"net/http"
 	"net/url"
+	"sync"
 
 	"github.com/gorilla/mux"
 	"github.com/inbucket/inbucket/v3/pkg/rest"
+	"github.com/inbucket/inbucket/v3/pkg/server/web"
 	vrf "github.com/inbucket/inbucket/v3/pkg/zzvrf"
 )
 
@@ -37,29 +39,44 @@ type vrfDoer struct {
 	req     *http.Request
 }
 
-// vrfRouted says whether the server's router hands the request to a mailbox route with the given
-// name. Natively the real gorilla/mux router with the real route table (rest.SetupRoutes) is asked.
-// Under the engine (gorilla/mux is outside the encoding) the documented matching rule stands in:
-// the router matches the *decoded* path segment by segment and a route variable is one segment, so
-// /api/v1/mailbox/{name}[/{id}[/source]] has exactly 4, 5 or 6 segments after the leading slash.
+var vrfRoutes sync.Once
+
+// vrfRouted says whether the server hands the request to a mailbox route and the handler then sees
+// the given mailbox name. The handler's view of the route variables is computed by the real
+// web.NewContext (web.VerifRouteVars). Natively the real gorilla/mux router - web.Router, set up
+// with the real route table the way server/lifecycle.go does - is asked for the match. Under the
+// engine gorilla/mux's matching (regular expressions) is outside the encoding and its documented
+// rule stands in: the router matches the path segment by segment, a route variable is one segment,
+// so /api/v1/mailbox/{name}[/{id}[/source]] has exactly 4, 5 or 6 segments after the leading slash;
+// the path matched is the decoded one, or the encoded one if the router was switched to encoded
+// paths - which is read from the router object the real initialiser of package web built.
 func vrfRouted(d *vrfDoer, name string, extra int) bool {
 	if !vrf.Symbolic() {
-		r := mux.NewRouter()
-		rest.SetupRoutes(r.PathPrefix("/api/").Subrouter())
+		vrfRoutes.Do(func() { rest.SetupRoutes(web.Router.PathPrefix("/api/").Subrouter()) })
 		var m mux.RouteMatch
-		return r.Match(d.req, &m) && m.Vars["name"] == name
+		if !web.Router.Match(d.req, &m) || m.MatchErr != nil {
+			return false
+		}
+		return web.VerifRouteVars(d.req, m.Vars)["name"] == name
+	}
+	path := d.path
+	if vrf.PeekBool(web.Router, "useEncodedPath") {
+		path = d.rawPath
 	}
 	seg, cur := []string{}, ""
-	for i := 1; i < len(d.path); i++ {
-		if d.path[i] == '/' {
+	for i := 1; i < len(path); i++ {
+		if path[i] == '/' {
 			seg = append(seg, cur)
 			cur = ""
 		} else {
-			cur += string(d.path[i])
+			cur += string(path[i])
 		}
 	}
 	seg = append(seg, cur)
-	return len(seg) == 4+extra && seg[0] == "api" && seg[1] == "v1" && seg[2] == "mailbox" && seg[3] == name
+	if len(seg) != 4+extra || seg[0] != "api" || seg[1] != "v1" || seg[2] != "mailbox" {
+		return false
+	}
+	return web.VerifRouteVars(d.req, map[string]string{"name": seg[3]})["name"] == name
 }
 
 func (d *vrfDoer) Do(req *http.Request) (*http.Response, error) {
@@ -114,7 +131,6 @@ func VerifC14Client(op int) {
 	} else if wantSuffix == "/7/source" {
 		extra = 2
 	}
-	vrf.Known("C14-slash-in-mailbox-name-not-routable", name == "we/ird")
 	vrf.Assert("server-routes-the-request-to-the-mailbox", vrfRouted(d, name, extra))
 	if needBody {
 		vrf.Assert("mark-seen-sends-a-body", d.hasBody)
